@@ -37,6 +37,24 @@ impl<'a> ReadBuf<'a> {
     pub fn remaining(&self) -> (n: usize) ensures n == self@.rest.len() { unimplemented!() }
 }
 
+// sequence facts the ReadBuf bookkeeping needs, as broadcast lemmas so that the shim read paths carry NO text-anchored hints
+// (a rewritten body is then verified as it stands instead of degrading to UNDECIDED)
+pub broadcast proof fn lemma_rb_skip_all<T>(f: Seq<T>, s: Seq<T>)
+    ensures #[trigger] (f.skip(f.len() as int) + s) == s
+{ assert(f.skip(f.len() as int) + s =~= s); }
+pub broadcast proof fn lemma_rb_add_skip<T>(a: Seq<T>, b: Seq<T>)
+    ensures #[trigger] (a + b).skip(a.len() as int) == b
+{ assert((a + b).skip(a.len() as int) =~= b); }
+pub broadcast proof fn lemma_rb_take_skip<T>(s: Seq<T>, n: int)
+    requires 0 <= n <= s.len()
+    ensures #[trigger] (s.take(n) + s.skip(n)) == s
+{ assert(s.take(n) + s.skip(n) =~= s); }
+pub broadcast proof fn lemma_rb_add_take<T>(a: Seq<T>, b: Seq<T>, n: int)
+    requires 0 <= n <= a.len()
+    ensures #[trigger] (a.take(n) + b).take(n) == a.take(n)
+{ assert((a.take(n) + b).take(n) =~= a.take(n)); }
+// @broadcast lemma_rb_skip_all, lemma_rb_add_skip, lemma_rb_take_skip, lemma_rb_add_take
+
 // std::task::Waker::noop / Context::from_waker (used by the try_* paths: a poll that must not park anybody)
 impl Waker {
     pub uninterp spec fn noop_id() -> int;
